@@ -71,21 +71,70 @@ def corr_targets(cover, tier, key=None):
         seen.add(k); targets.append((cfg, f))
     return targets
 
+def lemma_hash(l, idx, lib):
+    """content hash of a generated lemma: its text with every function id replaced by the content hash of that definition's transitive closure
+    (index.json `chash`), plus the hash of the library files it is checked against.  Equal hash = the same statement about the same definitions."""
+    import re, hashlib
+    ch = idx.d.get('chash', [])
+    def rep(m):
+        n = int(m.group(1)); return ('#' + ch[n - 2]) if 2 <= n < len(ch) + 2 else m.group(0)
+    t = re.sub(r'(\d+)%positive', rep, re.sub(r'Timeout \d+', 'Timeout T', re.sub(r'^Lemma \S+', 'Lemma L', l.text())))
+    return hashlib.sha256((t + '|' + lib).encode()).hexdigest()[:24]
+
 def run(pid, tier, seed, idx, info, t0, files, notes, cover, hdr, per_fn, rule, trusted, assumptions, extra=None, targets=None, fuel=400, footer=''):
-    core.LEMMA_TIMEOUT[0] = 20 if tier == 'quick' else 300
-    # lemmas recorded as slow (they exceeded the quick per-lemma limit when the baseline was recorded) are not attempted in the quick tier
+    """Proves the generated lemma files.  Lemmas that exceeded the quick per-lemma limit when the baseline was recorded are listed in
+    coverage/<pid>.json with the content hash of (statement, definitions, library) and the outcome of a long-limit attempt made then.
+    Quick tier: such a lemma is skipped only while its hash is unchanged (the recorded outcome is about exactly this statement and these
+    definitions); when anything it depends on has changed it is attempted again with the long limit."""
+    quick_limit, long_limit = 20, 300
+    core.LEMMA_TIMEOUT[0] = quick_limit if tier == 'quick' else long_limit
+    record = os.environ.get('VERIF_RECORD_COVERAGE') == '1'
     def lid(l): return '%s:%s:%s:%s' % (l.meta.get('cfg'), l.meta.get('key'), json.dumps(l.meta.get('fixed', {}), sort_keys=True), l.meta.get('spec', ''))
-    try: slow = set(json.load(open('%s/coverage/%s.json' % (core.VERIF, pid))).get('slow', []))
-    except (OSError, ValueError): slow = set()
-    skipped = []
-    if tier == 'quick' and slow and os.environ.get('VERIF_RECORD_COVERAGE') != '1':
+    try: slow = json.load(open('%s/coverage/%s.json' % (core.VERIF, pid))).get('slow', {})
+    except (OSError, ValueError): slow = {}
+    if isinstance(slow, list): slow = {k: {'h': '', 'st': 'deferred'} for k in slow}      # old format: no hash, always re-attempted
+    lib = core.lib_hash(core.theory_closure(hdr + footer))
+    H = {}
+    def h(l):
+        k = id(l)
+        if k not in H: H[k] = lemma_hash(l, idx, lib)
+        return H[k]
+    skipped = []; changed = {}
+    if tier == 'quick' and slow and not record:
         for b in list(files):
-            keep = [l for l in files[b] if lid(l) not in slow]; skipped += [l for l in files[b] if lid(l) in slow]; files[b] = keep
+            keep = []
+            for l in files[b]:
+                r = slow.get(lid(l))
+                if r is None: keep.append(l)
+                elif r.get('h') == h(l): skipped.append((l, r.get('st', 'deferred')))
+                else: changed.setdefault(b, []).append(l)
+            files[b] = keep
             if not keep: del files[b]
-    nob, nd, failures, assum = core.prove_files(core.BUILD + '/props/' + pid, files, hdr=hdr, footer=footer)
-    notes['deferred_count'] = len(core.DEFERRED) + len(skipped); notes['deferred'] = ['%s (%s)' % (l.meta['key'], why) for l, why in core.DEFERRED][:60]
-    notes['deferred_known_slow'] = len(skipped)
-    extra = dict(extra or {}); extra['slow_ids'] = sorted(set(lid(l) for l, _ in core.DEFERRED) | (slow if (tier == 'quick' and os.environ.get('VERIF_RECORD_COVERAGE') != '1') else set()))
+    propdir = core.BUILD + '/props/' + pid
+    nob, nd, failures, assum = core.prove_files(propdir, files, hdr=hdr, footer=footer)
+    if changed:      # a slow lemma whose statement or definitions changed since the baseline: decide it now, with the long limit
+        core.LEMMA_TIMEOUT[0] = long_limit
+        nob2, nd2, f2, a2 = core.prove_files(propdir + '_changed', {'Chg_' + b: ls for b, ls in changed.items()}, hdr=hdr, footer=footer)
+        nob += nob2; nd += nd2; failures += f2; assum.update(a2); core.LEMMA_TIMEOUT[0] = quick_limit
+    slow_out = None
+    if record and tier == 'quick':
+        # second pass over the lemmas deferred by the quick limit, with the long limit; the outcome is recorded with the content hash
+        D = [l for l, _ in core.DEFERRED]; del core.DEFERRED[:]
+        slow_out = {}
+        if D:
+            core.LEMMA_TIMEOUT[0] = long_limit
+            per = max(1, (len(D) + 31) // 32); groups = {}
+            for k, l in enumerate(D): groups.setdefault('Slow_%03d' % (k // per), []).append(l)
+            nob2, nd2, f2, a2 = core.prove_files(propdir + '_slow', groups, hdr=hdr, footer=footer)
+            still = set(id(l) for l, _ in core.DEFERRED); failed = set(id(l) for l, _ in f2)
+            for l in D: slow_out[lid(l)] = {'h': h(l), 'st': 'deferred' if id(l) in still else 'failed' if id(l) in failed else 'proved'}
+            nob += nob2; nd += nd2; failures += f2; assum.update(a2); core.LEMMA_TIMEOUT[0] = quick_limit
+    npc = sum(1 for _, st in skipped if st == 'proved')
+    notes['deferred_count'] = len(core.DEFERRED) + len(skipped) - npc; notes['deferred'] = ['%s (%s)' % (l.meta['key'], why) for l, why in core.DEFERRED][:60]
+    notes['slow_lemmas_unchanged_since_baseline'] = {'proved_with_long_limit_when_recorded': npc, 'not_decided_when_recorded': len(skipped) - npc}
+    notes['slow_lemmas_reattempted_because_changed'] = sum(len(v) for v in changed.values())
+    extra = dict(extra or {})
+    extra['slow_ids'] = slow_out if slow_out is not None else slow
     corr = core.correspondence(idx, targets if targets is not None else corr_targets(cover, tier), seed, per_fn, pid, fuel=fuel, max_calls=3000 if tier == 'quick' else 60000)
     samples = []
     for ls in list(files.values())[:2]:
